@@ -20,19 +20,34 @@ BACKENDS = ["sa_orm", "sa_core"]
 
 
 def families(facts):
-    return S.families(facts, BACKENDS, T.SA_CALLS)
+    return ["cfg.funcnames"] + S.families(facts, BACKENDS, T.SA_CALLS)
 
 
 def run_family(facts, fam, tier):
     if fam == "canary":
         return S.canary(PROPERTY, T.SA_CALLS)
+    if fam == "cfg.funcnames":
+        import time
+        from contracts import C15
+        return C15.cfg_funcnames(facts, time.time(), PROPERTY)
     if fam.startswith("bounded.semantics["):
         return S.bounded(PROPERTY, fam[len("bounded.semantics["):-1], tier, KNOWN)
     ops = T.SA_ORM_OPS if "[sa_orm]" in fam else T.SA_OPS
     return S.run_layer1(facts, fam, tier, PROPERTY, KNOWN, T.SA_CALLS, ops, top_q=False)
 
 
+CLASS_TO_ODATA = {"rtrim": "trim", "ltrim": "trim", "strpos": "indexof", "substr": "substring", "lower": "tolower", "upper": "toupper",
+                  "ceil": "ceiling", "floor": "floor", "round": "round"}
+
+
 def replay_spec(facts, r):
+    if r.get("clause") == "cfg.funcnames":
+        fn = CLASS_TO_ODATA.get(str(r.get("what")))
+        flt = [f for f in S.battery() if fn and (fn + "(") in f.lower()]
+        if not flt:
+            return None
+        return {"native_script": S.native_script("sa_core", flt, 1, 300), "input_text": "; ".join(flt)[:300],
+                "required": "the ORM selects exactly the denoted rows"}
     return S.replay_spec(facts, r, S.OP_SAMPLES)
 
 
